@@ -1,6 +1,6 @@
 """C11 - substring and editing methods keep the style of every surviving character."""
 from .. import obs as O
-from .common import Contract, ansi_values, history, run_cases, tier_sizes, is_ansi, safe_obs, esc_seam_values, small_scope_values, small_scope_on
+from .common import trie_case, Contract, ansi_values, history, run_cases, tier_sizes, is_ansi, safe_obs, esc_seam_values, small_scope_values, small_scope_on
 from .c10 import STRIP_DEFAULT
 from ..gen import gen_text
 
@@ -442,6 +442,31 @@ def drive(ctx, mon, tier, only_case=None):
                             c = L.AnsiString(v)
                         c.assign_str(t)
             ctx.extra['n_small_scope_values'] = nv
+            return
+        if case == 1:
+            q2 = L.AnsiString('Q', 'italic')
+            seps = ('a', 'b', 'bc', 'c', 'ab') if tier == 'thorough' else ('b', 'bc', 'a')
+
+            def visit(v, p):
+                for sep in seps:
+                    v.split(sep)
+                    v.rsplit(sep, 1)
+                    v.partition(sep)
+                    v.rpartition(sep)
+                    v.replace(sep, 'XY')
+                    v.replace(sep, q2)
+                    v.removeprefix(sep)
+                    v.removesuffix(sep)
+                    v.strip(sep)
+                v.upper()
+                v.title()
+                v.replace('', '-', 2)
+                if isinstance(v, L.AnsiString):
+                    for t in ('ab', 'abcde', ''):
+                        with mon.quiet():
+                            c = L.AnsiString(v)
+                        c.assign_str(t)
+            trie_case(ctx, mon, tier, 2, 3, visit=visit, cls=L.AnsiStr if ctx.shard % 4 == 2 else None)
             return
         history(L, rng, ex, rng.randint(2, sz['nops']), sz['maxlen'], 'mixed' if rng.random() < 0.25 else 'wf', WEIGHTS,
                 esc=rng.random() < 0.12)
